@@ -57,7 +57,7 @@ pub fn run(ctx: &Ctx) -> Report {
         "c09/send/plain/valid", "c09/send/plain/invalid", "c09/send/dups/valid", "c09/send/dups/invalid", "c09/send/zeros/valid",
         "c09/send/empty/invalid", "c09/send/plain/valid/self", "c09/send/plain/invalid/self", "c09/burn/plain/valid", "c09/burn/plain/invalid",
         "c09/mint/plain/valid", "c09/mint/plain/invalid-address", "c09/relay/2msgs/valid", "c09/relay/2msgs/invalid",
-        "c09/conservation_checks", "c09/failed_op_state_unchanged_checks", "c09/non_address_accounts_checked_raw_only", "c09/histories_with_a_crowd_of_accounts",
+        "c09/conservation_checks", "c09/failed_op_state_unchanged_checks", "c09/non_address_accounts_checked_raw_only", "c09/histories_with_a_crowd_of_accounts", "c09/histories_with_over_a_hundred_denominations",
     ] {
         rep.require(k);
     }
